@@ -66,6 +66,23 @@ def isRenewSecretV2 (h : Bytes → Bytes) (stored : Lease) (candidate : Bytes) :
 def isCancelSecretV2 (h : Bytes → Bytes) (stored : Lease) (candidate : Bytes) : Bool :=
   stored.cancel == h candidate
 
+/-- `LeaseInfo.renew(new_expire_time)` / `HashedLeaseInfo.renew`: a lease that differs in the
+    expiration time only (the hashed wrapper is kept, so the stored secrets are not hashed again) -/
+def renew (l : Lease) (newExpire : Int) : Lease := { l with expire := newExpire }
+
+/-- decode → renew → encode, repeated: what a container does on every `renew_lease`.  The record read
+    back is *already* in stored form (cleartext for v1, hashed once for v2), so it is packed as it is.
+    Returns the record bytes after each step, ending with `none` if a step raised `struct.error`. -/
+def renewCycle (mutableFmt : Bool) : Bytes → List Int → List (Option Bytes)
+  | _, [] => []
+  | b, e :: es =>
+    match (if mutableFmt then fromMutable b else fromImmutable b) with
+    | none => [none]
+    | some stored =>
+      match (if mutableFmt then toMutable (renew stored e) else toImmutable (renew stored e)) with
+      | none => [none]
+      | some b' => some b' :: renewCycle mutableFmt b' es
+
 /-! ### immutable container header -/
 
 /-- `_Schema.header(max_size)` for schema `version` -/
